@@ -659,9 +659,9 @@ Theorem compile_correct3b : forall tl sc lv rho e r rho' dl dn dt, dref3 bsem tl
 Proof.
   apply (dref3_min bsem body_okb args_okPb).
   - intros tl sc lv rho c f l s l' s' code Hwf. pose proof Hwf as [Hs Hd]. revert f l s l' s' code Hwf.
-    apply (dyn_datumb tl sc lv rho (YConst c) c); [intros; apply compile_const_eq; exact Hs|exact Hd].
+    apply (dyn_datumb tl sc lv rho (YConst c) c); [intros; apply compile_const_eq; [exact Hs|exact Hd]|exact Hd].
   - intros tl sc lv rho d f l s l' s' code Hwf. pose proof Hwf as Hd. cbn [wf3] in Hd. revert f l s l' s' code Hwf.
-    apply (dyn_datumb tl sc lv rho (YQuote d) d); [intros; apply compile_quote_form|exact Hd].
+    apply (dyn_datumb tl sc lv rho (YQuote d) d); [intros; apply compile_quote_form; exact Hd|exact Hd].
   - intros tl sc lv rho x i r Hp Hn. apply (dyn_localb tl sc lv rho x i r Hp Hn).
   - intros tl sc lv rho x r Hp Hr Hu. apply dyn_globalb; assumption.
   - intros tl sc lv rho c a b rc rho1 r rho2 dlc dnc dtc dl dn dt _ IHc Hrc _ IHa.
